@@ -51,7 +51,7 @@ def make(G, eventless, fold, n, span, fold2=None, latent_only=None):
     return env, bearing
 
 
-def run_case(G, eventless, fold, n, span, fold2=None, which="training-set", latent_only=None):
+def run_case(G, eventless, fold, n, span, fold2=None, which="training-set", latent_only=None, descending=False):
     """Returns (messages, number of episodes executed, outcome signature)."""
     msgs = []
     env, bearing = make(G, eventless, fold, n, span, fold2, latent_only)
@@ -70,6 +70,8 @@ def run_case(G, eventless, fold, n, span, fold2=None, which="training-set", late
     else:
         ncand = len(fold_steps) - n
         picks = list(range(ncand)) if ncand > 0 else [0]
+        if descending:
+            picks = picks[::-1]      # later episodes first: state left behind by them must not change earlier-starting ones
     for pick in picks:
         with ChoiceSeam(pick=pick) as seam:
             try:
@@ -179,9 +181,14 @@ def _work(chunk):
         if lat is not None:
             second = None
         fold2 = (pts[second[0]], pts[second[1]]) if second else None
-        for which in (("training-set", "other") if second else ("training-set",)):
+        order = [("training-set", False)]
+        if second:
+            order = [("training-set", False), ("other", False)]
+        elif n is not None and eventless:
+            order = [("training-set", False), ("training-set", True)]
+        for which, desc in order:
             try:
-                msgs, eps, sig = run_case(G, set(eventless), fold, n, span, fold2, which, lat)
+                msgs, eps, sig = run_case(G, set(eventless), fold, n, span, fold2, which, lat, desc)
             except Exception as ex:
                 msgs, eps, sig = ["building/running the case raised %r" % (ex,)], 0, None
             out["evaluations"] += 1
@@ -191,7 +198,7 @@ def _work(chunk):
                 out["nontrivial"].add((size, tuple(eventless), a, b, n, span, second, which))
             if msgs:
                 out["violations"].append(({"kind": "fold", "size": size, "eventless": list(eventless), "a": a, "b": b, "n": n, "span": span,
-                                           "second": list(second) if second else None, "which": which, "latent_only": lat},
+                                           "second": list(second) if second else None, "which": which, "latent_only": lat, "descending": desc},
                                           "; ".join(msgs[:3]), (msgs[0].split(" ")[0], n is None, bool(eventless))))
     return out
 
@@ -290,7 +297,7 @@ def replay(case, **kw):
     fold = (pts[case["a"]], pts[case["b"]])
     fold2 = (pts[case["second"][0]], pts[case["second"][1]]) if case.get("second") else None
     try:
-        msgs, _, _ = run_case(G, set(case["eventless"]), fold, case["n"], case["span"], fold2, case["which"], case.get("latent_only"))
+        msgs, _, _ = run_case(G, set(case["eventless"]), fold, case["n"], case["span"], fold2, case["which"], case.get("latent_only"), case.get("descending", False))
     except Exception as ex:
         msgs = ["building/running the case raised %r" % (ex,)]
     return msgs
